@@ -120,7 +120,7 @@ def symmetric_case(inp):
     return None
 
 
-@S.item("fidelity.one_iff_same_state", site=f"{MET}:fidelity", exhaustive=True,
+@S.item("fidelity.one_iff_same_state", site=f"{MET}:fidelity", exhaustive=False,
         bound="n<=2: every pair of presentations of the same state (6; 60 x 36) and every pair of states that differ only in "
               "generator signs (x all 36 presentation pairs); n=3: sampled",
         clause="the fidelity equals 1 exactly when the two states are the same (sign-only differences give < 1)")
@@ -193,7 +193,7 @@ def canon_same_case(inp):
     return None
 
 
-@S.item("canonical_form.different_states_differ", site=f"{STB}:canonical_form", exhaustive=True,
+@S.item("canonical_form.different_states_differ", site=f"{STB}:canonical_form", exhaustive=False,
         bound="all ordered pairs of distinct states n<=2 (30, 3540) in random generating sets; n=3: every state against its 7 "
               "sign-only variants and against sampled other states",
         clause="canonical form / StabilizerTableau equality distinguish different states, including sign-only differences")
